@@ -37,7 +37,13 @@ type Result struct {
 	Harness    string         `json:"harness_error,omitempty"`
 	Events     []string       `json:"events,omitempty"`
 	Known      string         `json:"known,omitempty"`
+	ProcMode   int            `json:"procmode"`
 }
+
+// ProcMode is a per-process mode (VERIF_PROCMODE, 0 or 1) for properties whose subject includes
+// process-global state that can be set up only once per process; it is recorded in every result
+// and restored by a replay.
+var ProcMode int
 
 // Ctx is what a scenario gets.
 type Ctx struct {
